@@ -1732,3 +1732,9 @@ Proof.
       inversion Es; subst. destruct (berr t1); reflexivity.
     + destruct (do_flush e false s0) as [x1 x2]. inversion Es; reflexivity.
 Qed.
+
+(* the scheduler pass on a final 10-byte write against a 4-byte window and grants of 3: 4 + 3 + 3 bytes, END_STREAM last *)
+Lemma wire_example :
+  wire_frames 3 4 [FH false []; FD true [1;2;3;4;5;6;7;8;9;10]]
+  = [FH false []; FD false [1;2;3;4]; FD false [5;6;7]; FD true [8;9;10]].
+Proof. vm_compute. reflexivity. Qed.
